@@ -309,12 +309,12 @@ def beginProg (c : Ctx) (t : Tid) (seq : Nat) : Op → List MOp
   | .makeObj ob => [.reserveObj ob, .registerObj ob, .ret (.mk ob)]
   | .disconnect p => [.enqDisc (.name p), .waitFut, .ret (.disc (.name p))]
 
-/-- the last element of a program is its `ret`; an exception replaces the whole program by `raise` with that tag -/
-def progTag : List MOp → OpTag
-  | [] => .mk 0
-  | [.ret o] => o
-  | [.raise _ o] => o
-  | _ :: rest => progTag rest
+/-- the last element of a user program is its `ret`; an exception replaces the whole program by `raise` with that tag -/
+def progTag (l : List MOp) : OpTag :=
+  match l.getLast? with
+  | some (.ret o) => o
+  | some (.raise _ o) => o
+  | _ => .mk 0
 
 /-- `_handle_subscription_reply` under the lock -/
 def handleReplyStep (cs : CtxSt) (id : ReqId) (ok : Bool) : Option (CtxSt × List MOp × Out) :=
